@@ -1,6 +1,7 @@
 /- Every sub-lexer, when it produces a token, makes progress and `Follows` the position
 specification; the token records the start state. -/
 import NormModel.Proofs.LexPop
+import NormModel.Proofs.NumPrefix
 namespace Norm
 open Spec
 
@@ -11,18 +12,28 @@ def TokOK (s s' : LexSt) (t : Token) : Prop :=
 theorem tokOK_mk {ty : String} {s s' : LexSt} {v : Option (List Char)} (h : Progress s s') :
     TokOK s s' (mkTok ty s s' v) := ⟨h, rfl, rfl, rfl, rfl⟩
 
-theorem follows_of_addDiag_if {s : LexSt} {b : Bool} {d : Diag} (h : HasHl d) :
-    Follows s (if b then s.addDiag d else s) := by
+theorem Follows.addDiag_if {s t : LexSt} {b : Bool} {d : Diag} (h : Follows s t) (hd : DiagAt s d) :
+    Follows s (if b then t.addDiag d else t) := by
   split
-  · exact ⟨0, follows_addDiag s d h⟩
-  · exact Follows.refl s
+  · exact h.addDiag hd
+  · exact h
+
+/-- a diagnostic inside a clean prefix of the unread input, `k` characters ahead -/
+theorem CPrefix.diagAt {e : List Char} {s : LexSt} (hp : CPrefix e s.rest) {d : Diag} {hl : Highlight} {tl : List Highlight}
+    (k : Nat) (hd : d.highlights = hl :: tl) (hk : k < e.length) (hpos : (hl.line, hl.col) = (s.line, s.col + k)) :
+    DiagAt s d := by
+  refine DiagAt.ahead k hd (Nat.lt_of_lt_of_le hk hp.length_le) ?_ hpos
+  obtain ⟨⟨r, hr⟩, hcl⟩ := hp
+  rw [← hr, List.take_append_of_le_length (Nat.le_of_lt hk)]
+  intro x hx
+  exact hcl x (List.mem_of_mem_take hx)
 
 /-! ### loops -/
 
-theorem charLoop_follows (line col fuel : Nat) (s : LexSt) (v : List Char) (n : Nat) :
-    Follows s (charLoop line col fuel s v n).1 := by
+theorem charLoop_progress (s0 : LexSt) (hne : 0 < s0.rest.length) (fuel : Nat) (s : LexSt) (v : List Char) (n : Nat)
+    (h0 : Progress s0 s) : Progress s0 (charLoop s0.line s0.col fuel s v n).1 := by
   induction fuel generalizing s v n with
-  | zero => exact Follows.refl s
+  | zero => exact h0
   | succ fuel ih =>
     unfold charLoop
     obtain ⟨p1, p2⟩ := popOne_spec false true s
@@ -31,7 +42,7 @@ theorem charLoop_follows (line col fuel : Nat) (s : LexSt) (v : List Char) (n : 
       rw [hpo] at p1 p2
       cases r with
       | none =>
-        exact (p2 rfl).1.trans ⟨0, follows_addDiag _ _ (hasHl_mkDiag _ _ _ _)⟩
+        exact (h0.trans_follows (p2 rfl).1).addDiag (DiagAt.here (mkDiag_highlights _ _ _) hne rfl)
       | some ch =>
         have hp := (p1 ch rfl).follows
         simp only
@@ -40,10 +51,42 @@ theorem charLoop_follows (line col fuel : Nat) (s : LexSt) (v : List Char) (n : 
           obtain ⟨n, _, _, _, _, ds, h5, h6⟩ := hp
           have : FollowsN 0 s { s with diags := s1.diags } := by
             rw [h5]; exact follows_addDiags s ds h6
-          exact Follows.trans ⟨0, this⟩ ⟨0, follows_addDiag _ _ (hasHl_mkDiag _ _ _ _)⟩
+          exact (h0.trans_follows ⟨0, this⟩).addDiag (DiagAt.here (mkDiag_highlights _ _ _) hne rfl)
+        · split
+          · exact h0.trans_follows hp
+          · exact ih _ _ _ (h0.trans_follows hp)
+
+theorem charLoop_moves (line col fuel : Nat) (s : LexSt) (v : List Char) (n : Nat) :
+    Moves s (charLoop line col fuel s v n).1 := by
+  induction fuel generalizing s v n with
+  | zero => exact Moves.refl s
+  | succ fuel ih =>
+    unfold charLoop
+    obtain ⟨p1, p2⟩ := popOne_spec false true s
+    cases hpo : popOne false true s with
+    | mk s1 r =>
+      rw [hpo] at p1 p2
+      cases r with
+      | none => exact (p2 rfl).1.moves.addDiag _
+      | some ch =>
+        have hp := (p1 ch rfl).follows.moves
+        simp only
+        split
+        · have : Moves s { s with diags := s1.diags } := ⟨0, Nat.zero_le _, by simp, by simp, by simp [advPos]⟩
+          exact this.addDiag _
         · split
           · exact hp
           · exact hp.trans (ih _ _ _)
+
+theorem Progress.addDiag_if {s t : LexSt} {b : Bool} {d : Diag} (h : Progress s t) (hd : DiagAt s d) :
+    Progress s (if b then t.addDiag d else t) := by
+  split
+  · exact h.addDiag hd
+  · exact h
+
+theorem Progress.rest_pos {s t : LexSt} (h : Progress s t) : 0 < s.rest.length := by
+  obtain ⟨k, hk, hk1, _⟩ := h
+  omega
 
 theorem strLoop_follows (fuel : Nat) (s : LexSt) (v : List Char) :
     Follows s (strLoop fuel s v).1 := by
@@ -182,27 +225,144 @@ theorem matchFloatHex_pos {u : Uni} {src : List Char} {m : FloatMatch}
         simp
   · cases h
 
-theorem floatLogic_tok {u : Uni} {line col : Nat} {src : List Char} {m : FloatMatch} {d : Option Diag}
-    (h : floatLogic u line col src = .tok m d) :
-    0 < m.const.length ∧ ∀ x, d = some x → HasHl x := by
+theorem matchFloatExp_kind {u : Uni} {src : List Char} {m : FloatMatch}
+    (h : matchFloatExp u src = some m) : m.kind = .exponent := by
+  unfold matchFloatExp at h
+  simp only [spanP] at h
+  by_cases h1 : (List.takeWhile u.isD src).isEmpty = true
+  · simp [h1] at h
+  · by_cases h2 : (matchExp isE u.isD (tailDec u) (List.dropWhile u.isD src)).isEmpty = true
+    · simp [h1, h2] at h
+    · simp only [h1, h2, Bool.false_eq_true, ↓reduceIte, Option.some.injEq] at h
+      subst h; rfl
+
+theorem matchFloatFrac_kind {u : Uni} {src : List Char} {m : FloatMatch}
+    (h : matchFloatFrac u src = some m) : m.kind = .fractional := by
+  unfold matchFloatFrac at h
+  simp only [spanP] at h
+  split at h
+  · cases h
+  · simp only [Option.some.injEq] at h
+    subst h; rfl
+
+theorem len_pos_of_ne_nil {α} {l : List α} (h : l ≠ []) : 0 < l.length := by
+  cases l with
+  | nil => exact absurd rfl h
+  | cons x xs => simp
+
+theorem matchFloatHex_len2 {u : Uni} {src : List Char} {m : FloatMatch}
+    (h : matchFloatHex u src = some m) : 2 ≤ m.const.length := by
+  unfold matchFloatHex at h
+  split at h
+  · rename_i tl
+    cases hxs : tl.takeWhile (fun c => c == 'x' || c == 'X') with
+    | nil => rw [hxs] at h; cases h
+    | cons x xs =>
+      rw [hxs] at h
+      simp only at h
+      split at h
+      · cases h
+      · simp only [Option.some.injEq] at h
+        subst h
+        simp only [List.cons_append, List.length_cons, List.length_append]
+        omega
+  · cases h
+
+theorem floatSuffixes_nil : Generated.floatSuffixes.contains (String.ofList []) = true := by decide
+
+theorem floatLogic_tok {u : Uni} {s : LexSt} {m : FloatMatch} {d : Option Diag}
+    (h : floatLogic u s.line s.col s.rest = .tok m d) :
+    0 < m.const.length ∧ ∀ x, d = some x → DiagAt s x := by
+  have hpre := floatLogic_pre h
   unfold floatLogic at h
   simp only at h
   split at h
   · cases h
   · rename_i m' hm
-    have hpos : 0 < m'.const.length := by
+    have hpos : 0 < m'.const.length ∧ (m'.kind = .hexadecimal → 2 ≤ m'.const.length) := by
       split at hm
       · rename_i m1 h1
         simp only [Option.some.injEq] at hm; subst hm
-        exact matchFloatExp_pos h1
+        refine ⟨matchFloatExp_pos h1, ?_⟩
+        intro hk
+        rw [matchFloatExp_kind h1] at hk; cases hk
       · split at hm
         · rename_i m2 h2
           simp only [Option.some.injEq] at hm; subst hm
-          exact matchFloatFrac_pos h2
-        · exact matchFloatHex_pos hm
-    repeat' split at h
-    all_goals try cases h
-    all_goals (refine ⟨hpos, ?_⟩; intro x hx; cases hx; try exact hasHl_mkDiag _ _ _ _)
+          refine ⟨matchFloatFrac_pos h2, ?_⟩
+          intro hk
+          rw [matchFloatFrac_kind h2] at hk; cases hk
+        · exact ⟨matchFloatHex_pos hm, fun _ => matchFloatHex_len2 hm⟩
+    have tot : (m.const ++ m.exp ++ m.suf).length = m.const.length + m.exp.length + m.suf.length := by
+      simp only [List.length_append]
+    split at h
+    · -- BAD_EXPONENT (decimal)
+      rename_i hc
+      simp only [FloatRes.tok.injEq] at h
+      obtain ⟨rfl, rfl⟩ := h
+      refine ⟨hpos.1, ?_⟩
+      intro x hx; cases hx
+      have he : 0 < m'.exp.length := by
+        simp only [Bool.and_eq_true, Bool.not_eq_true', List.isEmpty_eq_false_iff] at hc
+        exact len_pos_of_ne_nil hc.1.2
+      exact hpre.diagAt m'.const.length (mkDiag_highlights _ _ _) (by omega) rfl
+    · split at h
+      · cases h
+      · split at h
+        · -- MULTIPLE_X
+          rename_i hc
+          simp only [FloatRes.tok.injEq] at h
+          obtain ⟨rfl, rfl⟩ := h
+          refine ⟨hpos.1, ?_⟩
+          intro x hx; cases hx
+          have hk : m'.kind = .hexadecimal := by
+            simp only [Bool.and_eq_true, beq_iff_eq] at hc
+            exact hc.1
+          have := hpos.2 hk
+          refine hpre.diagAt 1 (mkDiag_highlights _ _ _) (by omega) ?_
+          simp only [Prod.mk.injEq, true_and]
+          omega
+        · split at h
+          · -- BAD_EXPONENT (hexadecimal)
+            rename_i hc
+            simp only [FloatRes.tok.injEq] at h
+            obtain ⟨rfl, rfl⟩ := h
+            refine ⟨hpos.1, ?_⟩
+            intro x hx; cases hx
+            have he : 0 < m'.exp.length := by
+              simp only [Bool.and_eq_true, Bool.not_eq_true', List.isEmpty_eq_false_iff] at hc
+              exact len_pos_of_ne_nil hc.1.2
+            exact hpre.diagAt m'.const.length (mkDiag_highlights _ _ _) (by omega) rfl
+          · split at h
+            · -- MULTIPLE_DOTS
+              rename_i hc
+              simp only [FloatRes.tok.injEq] at h
+              obtain ⟨rfl, rfl⟩ := h
+              refine ⟨hpos.1, ?_⟩
+              intro x hx; cases hx
+              have he : 0 < m'.suf.length := by
+                simp only [Bool.and_eq_true, decide_eq_true_eq] at hc
+                have := List.count_le_length (a := '.') (l := m'.suf)
+                omega
+              exact hpre.diagAt m'.const.length (mkDiag_highlights _ _ _) (by omega) rfl
+            · split at h
+              · -- BAD_FLOAT_SUFFIX
+                rename_i hc
+                simp only [FloatRes.tok.injEq] at h
+                obtain ⟨rfl, rfl⟩ := h
+                refine ⟨hpos.1, ?_⟩
+                intro x hx; cases hx
+                have he : 0 < m'.suf.length := by
+                  apply len_pos_of_ne_nil
+                  intro e
+                  rw [e, floatSuffixes_nil] at hc
+                  simp at hc
+                refine hpre.diagAt (m'.const.length + m'.exp.length) (mkDiag_highlights _ _ _) (by omega) ?_
+                simp only [Prod.mk.injEq, true_and]
+                omega
+              · simp only [FloatRes.tok.injEq] at h
+                obtain ⟨rfl, rfl⟩ := h
+                exact ⟨hpos.1, by intro x hx; cases hx⟩
 
 theorem parseFloat_ok {u : Uni} {s s' : LexSt} {t : Token} (h : parseFloat u s = some (s', t)) :
     TokOK s s' t := by
@@ -270,8 +430,48 @@ theorem matchInt_pos {u : Uni} {src : List Char} {m : IntMatch}
         · exact intFin_pos h
   · exact intFin_pos h
 
-theorem badDigits_hasHl (line col : Nat) (m : IntMatch) (name : String) (bucket : List Char) :
-    ∀ d ∈ badDigits line col m name bucket, HasHl d := by
+theorem popOne_ff_len {s : LexSt} {cs : List Char} (h : (popOne false false s).2 = some cs) : cs.length = 1 := by
+  unfold popOne at h
+  split at h
+  · cases h
+  · rename_i s1 c sz _
+    have he : escOf false s1 c sz = ([c], sz, [], 0) := by unfold escOf; simp
+    rw [he] at h
+    unfold finishPop at h
+    simp only at h
+    split at h
+    · simp only [Option.some.injEq] at h; subst h; rfl
+    · split at h
+      · simp only [Bool.false_eq_true, ↓reduceIte, Option.some.injEq] at h; subst h; rfl
+      · simp only [Option.some.injEq] at h; subst h; rfl
+
+theorem popN_len (n : Nat) (s : LexSt) (v : List Char) (h : (popN n s).2 = some v) : v.length = n := by
+  induction n generalizing s v with
+  | zero => unfold popN at h; simp only [Option.some.injEq] at h; subst h; rfl
+  | succ n ih =>
+    unfold popN at h
+    cases hpo : popOne false false s with
+    | mk s1 r =>
+      rw [hpo] at h
+      cases r with
+      | none => cases h
+      | some cs =>
+        simp only at h
+        have h1 := popOne_ff_len (s := s) (cs := cs) (by rw [hpo])
+        cases hpn : popN n s1 with
+        | mk s2 r2 =>
+          rw [hpn] at h
+          cases r2 with
+          | none => cases h
+          | some ds =>
+            simp only [Option.some.injEq] at h
+            subst h
+            have h2 := ih s1 ds (by rw [hpn])
+            simp only [List.length_append]; omega
+
+theorem badDigits_at {s : LexSt} {m : IntMatch} (hpre : CPrefix (m.pre ++ m.const ++ m.suf) s.rest)
+    (name : String) (bucket : List Char) :
+    ∀ d ∈ badDigits s.line s.col m name bucket, DiagAt s d := by
   intro d hd
   unfold badDigits at hd
   simp only at hd
@@ -280,26 +480,53 @@ theorem badDigits_hasHl (line col : Nat) (m : IntMatch) (name : String) (bucket 
   · rename_i hne
     simp only [List.mem_singleton] at hd
     subst hd
-    unfold HasHl mkDiag
-    simp only
-    intro h
-    rw [h] at hne
-    simp at hne
+    generalize hhs : (m.const.zipIdx m.pre.length).filterMap (fun x : Char × Nat =>
+      if bucket.contains x.1 = true then none else some ({ line := s.line, col := s.col + x.2, length := some 1 } : Highlight)) = hs at hne
+    cases hs with
+    | nil => simp at hne
+    | cons hl tl =>
+      have hmem : hl ∈ (m.const.zipIdx m.pre.length).filterMap (fun x : Char × Nat =>
+          if bucket.contains x.1 = true then none else some ({ line := s.line, col := s.col + x.2, length := some 1 } : Highlight)) := by
+        rw [hhs]; simp
+      simp only [List.mem_filterMap] at hmem
+      obtain ⟨⟨c, i⟩, hci, hf⟩ := hmem
+      have hlo := List.le_snd_of_mem_zipIdx hci
+      have hhi := List.snd_lt_of_mem_zipIdx hci
+      simp only at hlo hhi hf
+      split at hf
+      · cases hf
+      · simp only [Option.some.injEq] at hf
+        subst hf
+        refine hpre.diagAt i (mkDiag_highlights _ _ _) ?_ rfl
+        simp only [List.length_append]; omega
 
-theorem intDiags_hasHl (line col total : Nat) (m : IntMatch) :
-    ∀ d ∈ intDiags line col total m, HasHl d := by
+theorem integerSuffixes_nil : Generated.integerSuffixes.contains (String.ofList []) = true := by decide
+
+theorem intDiags_at {s : LexSt} {m : IntMatch} (hpre : CPrefix (m.pre ++ m.const ++ m.suf) s.rest) :
+    ∀ d ∈ intDiags s.line s.col (m.pre.length + m.const.length + m.suf.length) m, DiagAt s d := by
   intro d hd
   unfold intDiags at hd
   simp only [List.mem_append] at hd
   rcases hd with hd | hd
+  · split at hd
+    · simp at hd
+    · split at hd
+      · rename_i c tl hsuf
+        have hk : m.pre.length + m.const.length < (m.pre ++ m.const ++ m.suf).length := by
+          simp only [List.length_append, hsuf, List.length_cons]; omega
+        have hp : m.pre.length + m.const.length + m.suf.length - m.suf.length = m.pre.length + m.const.length := by omega
+        split at hd
+        · simp only [List.mem_singleton] at hd; subst hd
+          refine hpre.diagAt (m.pre.length + m.const.length) (mkDiag_highlights _ _ _) hk ?_
+          simp only [hp]
+        · simp only [List.mem_singleton] at hd; subst hd
+          refine hpre.diagAt (m.pre.length + m.const.length) (mkDiag_highlights _ _ _) hk ?_
+          simp only [hp]
+      · simp at hd
   · repeat' split at hd
     all_goals first
       | (simp at hd; done)
-      | (simp only [List.mem_singleton] at hd; subst hd; exact hasHl_mkDiag _ _ _ _)
-  · repeat' split at hd
-    all_goals first
-      | (simp at hd; done)
-      | exact badDigits_hasHl _ _ _ _ _ d hd
+      | exact badDigits_at hpre _ _ d hd
 
 theorem parseInt_ok {u : Uni} {s s' : LexSt} {t : Token} (h : parseInt u s = some (s', t)) :
     TokOK s s' t := by
@@ -315,7 +542,9 @@ theorem parseInt_ok {u : Uni} {s s' : LexSt} {t : Token} (h : parseInt u s = som
       obtain ⟨rfl, rfl⟩ := h
       have := (popN_spec (m.pre.length + m.const.length + m.suf.length) s).2 v (by rw [hpn]) (by omega)
       rw [hpn] at this
-      exact tokOK_mk (this.trans_follows ⟨0, follows_addDiags s2 _ (intDiags_hasHl _ _ _ _)⟩)
+      have hv : v.length = m.pre.length + m.const.length + m.suf.length := popN_len _ s v (by rw [hpn])
+      rw [hv]
+      exact tokOK_mk (this.addDiags (intDiags_at (matchInt_pre hm)))
 
 theorem parseChar_ok {s s' : LexSt} {t : Token} (h : parseChar s = some (s', t)) :
     TokOK s s' t := by
@@ -337,11 +566,10 @@ theorem parseChar_ok {s s' : LexSt} {t : Token} (h : parseChar s = some (s', t))
           simp only [Option.some.injEq, Prod.mk.injEq] at h
           obtain ⟨rfl, rfl⟩ := h
           apply tokOK_mk
-          apply (f1.trans_progress p2).trans_follows
-          have f3 := charLoop_follows s.line s.col (s2.rest.length + 1) s2 (pre ++ q) 0
-          refine f3.trans ?_
-          refine Follows.trans ?_ (follows_of_addDiag_if (hasHl_mkDiag _ _ _ _))
-          exact follows_of_addDiag_if (hasHl_mkDiag _ _ _ _)
+          have hne := (f1.trans_progress p2).rest_pos
+          have f3 := charLoop_progress s hne (s2.rest.length + 1) s2 (pre ++ q) 0 (f1.trans_progress p2)
+          apply Progress.addDiag_if _ (DiagAt.here (mkDiag_highlights _ _ _) hne rfl)
+          exact f3.addDiag_if (DiagAt.here (mkDiag_highlights _ _ _) hne rfl)
 
 theorem parseString_ok {s s' : LexSt} {t : Token} (h : parseString s = some (s', t)) :
     TokOK s s' t := by
@@ -365,9 +593,9 @@ theorem parseString_ok {s s' : LexSt} {t : Token} (h : parseString s = some (s',
             simp only [Option.some.injEq, Prod.mk.injEq] at h
             obtain ⟨rfl, rfl⟩ := h
             apply tokOK_mk
-            apply (f1.trans_progress p2).trans_follows
+            have hne := (f1.trans_progress p2).rest_pos
             have f3 := strLoop_follows (s2.rest.length + 1) s2 (pre ++ q)
-            exact f3.trans (follows_of_addDiag_if (hasHl_mkDiag _ _ _ _))
+            exact ((f1.trans_progress p2).trans_follows f3).addDiag_if (DiagAt.here (mkDiag_highlights _ _ _) hne rfl)
 
 theorem parseIdent_ok {s s' : LexSt} {t : Token} (h : parseIdent s = some (s', t)) :
     TokOK s s' t := by
@@ -432,8 +660,7 @@ theorem parseMultiComment_ok {s s' : LexSt} {t : Token} (h : parseMultiComment s
       simp only [Option.some.injEq, Prod.mk.injEq] at h
       obtain ⟨rfl, rfl⟩ := h
       apply tokOK_mk
-      apply p1.trans_follows
-      exact (multiCommentLoop_follows _ _ _).trans (follows_of_addDiag_if (hasHl_mkDiag _ _ _ _))
+      exact (p1.trans_follows (multiCommentLoop_follows _ _ _)).addDiag_if (DiagAt.here (mkDiag_highlights _ _ _) p1.rest_pos rfl)
 
 theorem parseBrackets_ok {s s' : LexSt} {t : Token} (h : parseBrackets s = some (s', t)) :
     TokOK s s' t := by
